@@ -422,4 +422,45 @@ example : (runOps exampleDoc exampleLines exampleOps).heap.map (fun o => (o.bin,
     = [(0, none, 1), (1, some ("2", "1"), 0), (1, some ("2", "1"), 2)] := by
   decide +kernel
 
+/-! ## text lines -/
+
+/-- the state machine does not tell the inert lines apart: any two lists of lines that agree up to
+`Line.norm` (an unknown opening or closing tag is as good as any other line without an accession) and in
+their byte lengths drive it through the same states, callback invocations included.  The driver
+tokenises the TEXT of every generated file with `tokenise` (the code's `startswith` / `find` / regular
+expression tests on characters), checks that the result agrees with `render cls d` up to `Line.norm`, and
+by this theorem `fastParse` on the tokenised text is `fastParse` on the rendered document, the object of
+`fast_eq_xml` -/
+theorem tokens_agree_modulo_inert_lines (cb : Nat → Bool) (ls ls' : List (Line × Nat))
+    (h : ls.map (fun ln => (ln.1.norm, ln.2)) = ls'.map (fun ln => (ln.1.norm, ln.2))) :
+    run cb ls = run cb ls' ∧ fastParse cb ls = fastParse cb ls' := by
+  have e : run cb ls = run cb ls' := runS_norm cb ls ls' St.init h
+  refine ⟨e, ?_⟩
+  unfold fastParse
+  rw [e]
+
+/-- the nine cvParam line styles the generator writes, a reference, a group, the two lists whose opening
+tag the `<spectrum` / `<referenceableParamGroup` prefix tests also accept, as the code's string tests
+classify them -/
+example : tokenise clsAnyC "   <cvParam cvRef=\"IMS\" accession=\"IMS:1000050\" name=\"position x\" value=\"3\"/>  \r"
+    = some (.cv "IMS:1000050" (some "3")) := by decide +kernel
+example : tokenise clsAnyC "<cvParam accession=\"MS:1000285\" cvRef=\"MS\" name=\"p\" unitAccession=\"MS:1000040\" unitCvRef=\"MS\" unitName=\"m/z\" value=\"1.500000e+06\"/>"
+    = some (.cv "MS:1000285" (some "1.500000e+06")) := by decide +kernel
+example : tokenise clsAnyC "<cvParam cvRef=\"IMS\" accession=\"IMS:1000046\" name=\"n\" value=\"30\" unitCvRef=\"UO\" unitAccession=\"UO:0000017\" unitName=\"micrometer\"/>"
+    = some (.cv "IMS:1000046" (some "30")) := by decide +kernel
+example : tokenise clsAnyC "<cvParam unitCvRef=\"UO\" unitAccession=\"UO:0000017\" unitName=\"micrometer\" cvRef=\"IMS\" accession=\"IMS:1000046\" name=\"n\" value=\"2.5E+1\"/>"
+    = some (.cv "IMS:1000046" (some "2.5E+1")) := by decide +kernel
+example : tokenise clsAnyC "<cvParam\tcvRef=\"MS\"\taccession=\"MS:1000285\"\t\tname=\"tic\"\tvalue=\"-1.5e+06\"\t/>"
+    = some (.cv "MS:1000285" (some "-1.5e+06")) := by decide +kernel
+example : tokenise clsWordC "<cvParam\tcvRef=\"MS\"\taccession=\"MS:1000285\"\t\tname=\"tic\"\tvalue=\"-1.5e+06\"\t/>"
+    = some (.cv "MS:1000285" none) := by decide +kernel
+example : tokenise clsAnyC "<cvParam cvRef=\"MS\" accession=\"MS:1000514\" name=\"array\" value=\"\"></cvParam>"
+    = some (.cv "MS:1000514" none) := by decide +kernel
+example : tokenise clsAnyC "<referenceableParamGroupRef ref=\"intensities\"/>" = some (.ref "intensities") := by decide +kernel
+example : tokenise clsAnyC "  <referenceableParamGroup id=\"mzArray\">" = some (.opn .group "mzArray") := by decide +kernel
+example : tokenise clsAnyC "<referenceableParamGroupList count=\"3\">" = some (.opn .groupList "") := by decide +kernel
+example : tokenise clsAnyC "<spectrumList count=\"2\" defaultDataProcessingRef=\"dp0\">" = some (.opn .spectrumList "") := by decide +kernel
+example : tokenise clsAnyC "<userParam name=\"accession\" value=\"2975.78\"/>" = some .misc := by decide +kernel
+example : (tokenise clsAnyC "<scanList count=\"1\">").map Line.norm = some (Line.norm (.opn .other "")) := by decide +kernel
+
 end Pew.FastParse
